@@ -1,5 +1,6 @@
 SPECIFICATION Spec
 CONSTANTS
+  Flavour = "ip"
   MaxV = 3
   InitVers = {1}
   InitCaches = {0, 11, 1}
